@@ -55,6 +55,7 @@ var frags = map[string]frag{
 	"sltags":  {src: "Fsltags ETags", dst: "Fsltags ETags"},
 	"nest":    {src: "Fnest EN", dst: "Fnest EN2", scalars: []string{"Fnest.X:int", "Fnest.Y:string"}},
 	"nestE":   {src: "FnestE EN", dst: "FnestE EN2", notes: []string{":conv CvE2 FnestE.X FnestE.X"}, scalars: []string{"FnestE.X:int", "FnestE.Y:string"}},
+	"nestE2":  {src: "FnestD EN3", dst: "FnestD EN4", notes: []string{":conv CvE3 FnestD.In.X FnestD.In.X"}, scalars: []string{"FnestD.In.X:int", "FnestD.In.Y:string", "FnestD.K:int"}},
 	"ptr":     {src: "Fptr *int", dst: "Fptr *int"},
 	"skip":    {src: "Fskip int", dst: "Fskip int", notes: []string{":skip Fskip"}, scalars: []string{"Fskip:int"}},
 	"nomatch": {dst: "Fnomatch int", scalars: []string{"Fnomatch:int"}},
@@ -90,6 +91,16 @@ type EN2 struct {
 	Y string
 }
 
+type EN3 struct {
+	In EN
+	K  int
+}
+
+type EN4 struct {
+	In EN2
+	K  int
+}
+
 type ETags []string
 
 func CvV(i int) int { vrt.Call("CvV"); return i + 1000 }
@@ -108,6 +119,13 @@ func CvE2(i int) (int, error) {
 		return 0, vrt.Err("CvE2")
 	}
 	return i + 6000, nil
+}
+
+func CvE3(i int) (int, error) {
+	if vrt.Call("CvE3") {
+		return 0, vrt.Err("CvE3")
+	}
+	return i + 7000, nil
 }
 `
 
@@ -192,7 +210,7 @@ func itoa(n int) string {
 	return string(b[i:])
 }
 
-var tags = []string{"", "CvV", "CvP", "CvE", "GetE", "Fgetter", "CvE2"}
+var tags = []string{"", "CvV", "CvP", "CvE", "GetE", "Fgetter", "CvE2", "CvE3"}
 
 // Sym renders an int as the symbolic value the specification computes: user
 // functions tag their result with 1000 * (their number), hooks write 901 / 902.
